@@ -387,7 +387,12 @@ func verifC09Rank(rx, ry, rz int) {}
 //@           (len(res.Values) == 0 && !any && (forall i int :: 0 <= i < m.n ==> !testOf(deref(m), i))) ||
 //@           (len(res.Values) == keepCount(deref(m), m.n) && any == (len(res.Values) > 0) &&
 //@              (forall i int :: 0 <= i < m.n && testOf(deref(m), i) ==> res.Values[keepCount(deref(m), i)] == old(res.Values[i])))
+//@   ensures len(res.Values) <= old(len(res.Values))
+//@   ensures (forall i int :: 0 <= i < m.n ==> !testOf(deref(m), i)) && m.n > 0 ==> len(res.Values) == 0 && !any
+//@   ensures (forall i int :: 0 <= i < m.n ==> testOf(deref(m), i)) && m.n > 0 ==> any && len(res.Values) == old(len(res.Values)) && (forall i int :: 0 <= i < m.n ==> res.Values[i] == old(res.Values[i]))
 //@   loop 1:
+//@     invariant (forall i int :: 0 <= i < idx() ==> !testOf(deref(m), i)) ==> j == 0
+//@     invariant (forall i int :: 0 <= i < idx() ==> testOf(deref(m), i)) ==> j == idx() && (forall i int :: 0 <= i < idx() ==> res.Values[i] == old(res.Values[i]))
 //@     invariant 0 <= idx() <= len(res.Values) && len(res.Values) == m.n && unchanged(res, res.Values) && deref(m) == old(deref(m))
 //@     invariant ref(res.Values) == old(ref(res.Values)) && off(res.Values) == old(off(res.Values)) && len(res.Values) == old(len(res.Values))
 //@     invariant j == keepCount(deref(m), idx()) && 0 <= j <= idx()
@@ -660,3 +665,15 @@ func verifC09Rank(rx, ry, rz int) {}
 //@   loop 1:
 //@     invariant 0 <= idx() <= rlen()
 //@     decreases rlen() - idx()
+
+// Filter.Apply is Match followed by Match.Apply: when every measurement is
+// selected by the filter's meaning the result is left as it is; when none is,
+// all measurements are dropped and false is returned (C06).
+//@ func (f *Filter) Apply(res *benchfmt.Result) (any bool, err error)
+//@   props C06
+//@   requires f != nil && res != nil
+//@   modifies res, res.Values
+//@   ensures old(len(res.Values)) > 0 && (forall i int :: 0 <= i < old(len(res.Values)) ==> den(f.match, res, i)) ==>
+//@             any && len(res.Values) == old(len(res.Values)) && (forall i int :: 0 <= i < len(res.Values) ==> res.Values[i] == old(res.Values[i]))
+//@   ensures old(len(res.Values)) > 0 && (forall i int :: 0 <= i < old(len(res.Values)) ==> !den(f.match, res, i)) ==> !any && len(res.Values) == 0
+//@   ensures len(res.Values) <= old(len(res.Values))
